@@ -229,7 +229,7 @@ package crlrepository
 
 //@ func Repository.IsRevoked
 //@   writes nothing
-//@   props C01 C09 C10 C11 C13
+//@   props C01 C03 C09 C10 C11 C13
 //@   requires repoOK(R) && norwlocks() && certificate != nil
 //@   assigns L.held, crlrepository.Entry.CRLStore, crlrepository.Entry.Loaded, crlrepository.Entry.LastUpdateSignatureVerifyFailed, crlrepository.Entry.LastUpdateSignature, crlrepository.Entry.Chains, H.crlrepository.Repository.crlRepository, M.map[string]*crlrepository.Entry, crlstore.MapStore.Map, M.map[string][]uint8, crlstore.LevelDbStore.Db, H.crlloader.MultiSchemesCRLLoader, H.crlloader.URLLoader, H.crlloader.FileLoader, X.ldbhas, X.fs, X.net, X.retry, X.stream, X.spos, X.hacc, X.hkind, E.uint8, E.any, E.string, fresh:E.*core.CertificateChainEntry, fresh:E.core.CertificateChain, fresh:E.core.CertificateChainEntry
 //@   ensures err == nil ==> ret != nil
@@ -237,7 +237,7 @@ package crlrepository
 //@   ensures[C10] strict_unusable_location_denies: locations != nil && R.crlConfig.CDPConfig.CRLCDPStrict && called(CRLLoaderFactory.CreatePreferredCrlLoader#1) && res(CRLLoaderFactory.CreatePreferredCrlLoader#1, 1) != nil ==> err != nil
 //@   ensures[C10] lenient_never_denies_for_cdp: locations != nil && !R.crlConfig.CDPConfig.CRLCDPStrict && err != nil ==> called(Repository.checkCrl#1) && res(Repository.checkCrl#1, 1) != nil
 //@   loop 1 invariant repoOK(R) && norwlocks()
-//@   loop 1 iter_ensures[C01,C09] every_error_and_hit_ends_the_search: called(Repository.checkCrl#1) ==> res(Repository.checkCrl#1, 1) == nil && !res(Repository.checkCrl#1, 0).Revoked
+//@   loop 1 iter_ensures[C01,C03,C09] every_error_and_hit_ends_the_search: called(Repository.checkCrl#1) ==> res(Repository.checkCrl#1, 1) == nil && !res(Repository.checkCrl#1, 0).Revoked
 //@   ensures[C01,C09] check_error_propagates: called(Repository.checkCrl#1) && res(Repository.checkCrl#1, 1) != nil ==> err != nil
 //@   ensures[C01] hit_propagates: called(Repository.checkCrl#1) && res(Repository.checkCrl#1, 1) == nil && res(Repository.checkCrl#1, 0).Revoked ==> err == nil && ret.Revoked
 
